@@ -17,6 +17,8 @@ Work ONLY inside {wt} and write deliverables ONLY under {out}. Never read or tou
 The property (this record is all you are told about what is being verified):
 {json.dumps(rec, indent=1)}
 """
+if kind == "s":
+    kind_label = "s"
 if kind == "d":
     body = f"""
 TASK: produce 3 independent changes to the library source ({wt}/joblib/**, never the tests) that each BREAK this property while the package still imports and the existing test-suite still passes.
@@ -36,15 +38,16 @@ Deliver for change K (K=1,2,3) the directory {out}/{pid}-d-K/ containing
 Verify yourself, for each change: (1) demo exits 0 on the clean tree (`git stash` / `git checkout -- .`), (2) demo exits non-zero with the change, (3) the test modules that exercise the files you touched pass with the change: `cd {wt} && timeout 1700 /venv/bin/python -m pytest -q -p no:cacheprovider --basetemp={wt}/.bt --timeout=600 joblib/test/test_<module>.py` (test_parallel.py takes a few minutes). A change that makes an existing test fail is useless - rework it.
 Reset the worktree (`git checkout -- . && git clean -fdq -e .bt`) after each change. Finish with a short report: the ids delivered, one line each."""
 else:
+    tag = kind
     body = f"""
 TASK: produce 4 independent BEHAVIOUR-PRESERVING refactorings of the library code that implements the mechanisms this property depends on (the functions named under "anchors"/"mechanism"). The property - and every other observable behaviour - must STILL HOLD after each of them. They are used to make sure that a verifier of this property does not raise false alarms on harmless edits.
 
 Do the kind of clean-up maintainers really do, 5-40 changed lines each, inside the anchored functions/classes, e.g.: extract part of a method into a new private helper (or inline a helper), turn an if/elif chain into early returns (or back), swap the branches of an if with the test negated, loop <-> comprehension, re-order independent statements, hoist a repeated expression into a local, introduce a local alias for an attribute, rename locals / private helpers / private attributes consistently, `x += n` <-> `x = x + n`, merge nested `with`/`if`, split a long condition into named booleans, replace a lambda by a def, add logging/debug statements, docstrings or type hints, change string formatting of messages, equivalent standard-library call (`os.path.join` <-> f-string is NOT equivalent; `dict(a, **b)` <-> `{{**a, **b}}` is). Use a different kind of refactoring for each of the four, and touch different functions where the property has several anchors.
 Do NOT change behaviour: same results, same exceptions, same ordering of side effects on shared state / files / locks, same public API.
 
-Deliver for refactoring K (K=1..4) the directory {out}/{pid}-r-K/ containing
+Deliver for refactoring K (K=1..4) the directory {out}/{pid}-{kind}-K/ containing
  * patch.diff - `git diff` taken in {wt}; applies with `git apply` to the clean HEAD;
- * notes.md   - first line: `{pid}-r-K: <one-line summary>`; then what kind of refactoring, which functions, why behaviour is unchanged, which test modules you ran.
+ * notes.md   - first line: `{pid}-{kind}-K: <one-line summary>`; then what kind of refactoring, which functions, why behaviour is unchanged, which test modules you ran.
 Verify: the package imports and the test modules exercising the touched files pass: `cd {wt} && timeout 1700 /venv/bin/python -m pytest -q -p no:cacheprovider --basetemp={wt}/.bt --timeout=600 joblib/test/test_<module>.py`.
 Reset the worktree (`git checkout -- . && git clean -fdq -e .bt`) after each. Finish with a short report: the ids delivered, one line each."""
 print(common + body)
